@@ -208,6 +208,27 @@ def r7_forlabel(src, start_k=1):
     return _rebuild(src, edits), len(edits)
 
 
+_ENUM_RE = re.compile(r"for\s*\(\s*(\w+)\s*,\s*(\w+)\s*\)\s+in\s+([^{;]+?)\.enumerate\(\)\s*\{")
+
+
+def r7_enumerate(src):
+    """R7 (iteration spelling), enumerate variant — the documented semantics of `Iterator::enumerate` written out:
+    `for (I, X) in E.enumerate() {`  ->  `let mut __enum_I: usize = 0; for X in E /*@enum:I@*/ { let I = __enum_I; __enum_I = __enum_I + 1;`
+    (a trailing `.into_iter()` of E is dropped: `for X in V` is the same iteration). The pair pattern becomes the element
+    pattern plus a counter that starts at 0 and is advanced FIRST in the body, so `continue` cannot skip it. The generator adds
+    the invariant `__enum_I == it<k>.index@` to that loop. Inert on text without such a loop."""
+    n = 0
+
+    def rep(m):
+        nonlocal n
+        n += 1
+        i, x, e = m.group(1), m.group(2), m.group(3).strip()
+        if e.endswith(".into_iter()"):
+            e = e[: -len(".into_iter()")]
+        return f"let mut __enum_{i}: usize = 0;\nfor {x} in {e} /*@enum:{i}@*/ {{\nlet {i} = __enum_{i}; __enum_{i} = __enum_{i} + 1;"
+    return _ENUM_RE.sub(rep, src), n
+
+
 def r13_bool_bitor(src):
     """`a.b | c.d` where every operand is a plain field path and the expression is the scrutinee of a
     `match` with `true`/`false` arms (or an `if` condition): `|` -> `||`."""
